@@ -9,7 +9,7 @@ PROPS = {
     "C10": dict(
         family="fmt",
         theorems=T("C10", "run_sat", "parse_no_oob", "parse_terminates", "parse_no_ub", "null_fmt", "outcomes_all_args",
-                   "char_padding_only_assert_partial", "char_padding_assert_raised", "toString_utf8_sat", "outcomes_partial", "zero_args"),
+                   "char_padding_only_assert_partial", "char_padding_assert_raised", "toString_sat", "outcomes_partial", "zero_args"),
         partial="'the only way it stops the process is the documented char-padding assertion' is proved for argument lists whose floating-point renderings are "
                 "shorter than the library's 64-byte buffer (Arg.FloatFits); for longer renderings the pinned code aborts with 'Format buffer too small' (defect 13, "
                 "property C13). outcomes_all_args is the unconditional statement (every argument list) and lists that message explicitly. A result of 2^28 bytes or more "
